@@ -1,9 +1,11 @@
 (* C16 - Watch-mode rendering equals a fresh build.
    Property statements only; each is closed by [exact].  Models: model/Quote.v (strconv.Quote without outer
-   quotes / strconv.Unquote), model/WatchMode.v (text file, development-mode lookup, HasChanged, a compiled
-   template as a list of statements), model/QuoteGo.v (strconv.IsPrint from gen/Tables16.v). *)
+   quotes / strconv.Unquote), model/WatchMode.v (text file, development-mode lookup, HasChanged with the skeleton
+   comparison of commit 75525d5, a compiled template as a list of statements run by a machine with arbitrary
+   opaque statements, the skeleton of generated text and the generated file as a program of lines),
+   model/QuoteGo.v (strconv.IsPrint from gen/Tables16.v). *)
 From Coq.Strings Require Import Byte String.
-From Coq Require Import List NArith Bool.
+From Coq Require Import List Arith NArith Bool.
 Import ListNotations.
 From V Require Import lib.Bytes model.Quote model.QuoteGo model.WatchMode
   proofs.QuoteProof proofs.QuoteLitProof proofs.QuoteGoProof proofs.WatchModeProof.
@@ -85,86 +87,192 @@ Proof. repeat split; vm_compute; reflexivity. Qed.
 
 (* ---------- first half of the property: development mode on the template's own text file ---------- *)
 
-(* for every compiled template (statement list), every writer semantics and every valuation of its Go
-   expressions: rendering with the text file written for it = rendering the normally generated code *)
-Theorem C16_dev_equals_normal : forall (sem : sink -> bytes -> bytes) (ev_str : bytes -> bytes) (ev_bool : bytes -> bool) (u : list uop),
+(* for every compiled template (statement list: literals, expressions, ifs and ANY other statements - loops,
+   switches, calls, raw Go - with an arbitrary meaning [code]), every writer semantics, every valuation, every
+   state, every position and every fuel: rendering with the text file written for it = rendering the normally
+   generated code *)
+Theorem C16_dev_equals_normal : forall (St : Type) (sem : sink -> bytes -> bytes) (ev_str : St -> bytes -> bytes)
+  (ev_bool : St -> bytes -> bool) (code : bytes -> nat -> St -> option (St * bytes * nat)) (u : list uop),
   lits_ok u = true ->
-  run sem ev_str ev_bool (lk_dev (text_file (lits u))) (compile u) 0 = run sem ev_str ev_bool lk_normal (compile u) 0.
+  forall (fuel pc : nat) (s : St),
+  exec St sem ev_str ev_bool code (lk_dev (text_file (lits u))) fuel (compile u) pc s =
+  exec St sem ev_str ev_bool code lk_normal fuel (compile u) pc s.
 Proof. exact dev_equals_normal. Qed.
 Print Assumptions C16_dev_equals_normal.
 
 (* ---------- second half: edits classified as needing no recompilation ---------- *)
 
-(* a sound criterion: generated code equal up to the contents of string literals *)
-Theorem C16_skeleton_sound : forall (sem : sink -> bytes -> bytes) (ev_str : bytes -> bytes) (ev_bool : bytes -> bool) (u u' : list uop),
+(* generated code equal up to the contents of string literals: the old program reading the new file renders like
+   the new program *)
+Theorem C16_skeleton_sound : forall (St : Type) (sem : sink -> bytes -> bytes) (ev_str : St -> bytes -> bytes)
+  (ev_bool : St -> bytes -> bool) (code : bytes -> nat -> St -> option (St * bytes * nat)) (u u' : list uop),
   skeleton u = skeleton u' -> lits_ok u' = true ->
-  run sem ev_str ev_bool (lk_dev (text_file (lits u'))) (compile u) 0 = run sem ev_str ev_bool lk_normal (compile u') 0.
+  forall (fuel pc : nat) (s : St),
+  exec St sem ev_str ev_bool code (lk_dev (text_file (lits u'))) fuel (compile u) pc s =
+  exec St sem ev_str ev_bool code lk_normal fuel (compile u') pc s.
 Proof. exact skeleton_sound. Qed.
 Print Assumptions C16_skeleton_sound.
 
-(* what the coded criterion compares *)
-Theorem C16_has_changed_false_iff : forall p u : gen_output, has_changed p u = false <->
-  o_version (g_opts p) = o_version (g_opts u) /\ o_file (g_opts p) = o_file (g_opts u) /\ o_skip (g_opts p) = o_skip (g_opts u) /\
-  length (g_literals p) = length (g_literals u) /\ g_exprs p = g_exprs u.
+(* what generator.HasChanged compares since 75525d5, whatever the skeletons are made of: a negative answer means
+   equal version, file name and skip flag, equally many literals, the same list of Go expressions AND EQUAL SKELETONS *)
+Theorem C16_has_changed_false_iff : forall (S : Type) (eqb : S -> S -> bool), (forall a b, eqb a b = true <-> a = b) ->
+  forall p u : gen_output S, has_changed eqb p u = false <->
+  (o_version (g_opts p) = o_version (g_opts u) /\ o_file (g_opts p) = o_file (g_opts u) /\ o_skip (g_opts p) = o_skip (g_opts u) /\
+   length (g_literals p) = length (g_literals u) /\ g_exprs p = g_exprs u) /\ g_skel p = g_skel u.
 Proof. exact has_changed_false. Qed.
 Print Assumptions C16_has_changed_false_iff.
 
-(* sequences of edits: the negative answer is an equivalence, so a chain of text-only edits is a text-only edit *)
-Theorem C16_has_changed_equivalence :
-  (forall a, has_changed a a = false) /\
-  (forall a b, has_changed a b = false -> has_changed b a = false) /\
-  (forall a b c, has_changed a b = false -> has_changed b c = false -> has_changed a c = false).
+(* sequences of edits: the negative answer is still an equivalence, so comparing each generation with the one before
+   (what the event handler does) is comparing with the generation that was compiled *)
+Theorem C16_has_changed_equivalence : forall (S : Type) (eqb : S -> S -> bool), (forall a b, eqb a b = true <-> a = b) ->
+  (forall a : gen_output S, has_changed eqb a a = false) /\
+  (forall a b : gen_output S, has_changed eqb a b = false -> has_changed eqb b a = false) /\
+  (forall a b c : gen_output S, has_changed eqb a b = false -> has_changed eqb b c = false -> has_changed eqb a c = false).
 Proof. exact has_changed_equivalence. Qed.
 Print Assumptions C16_has_changed_equivalence.
 
-(* The coded criterion is NOT sound.  For every writer semantics:
+(* on compiled templates the answer is EXACTLY "same options and same skeleton": a different skeleton always asks
+   for recompilation (nothing unsound is let through), equal options and skeleton never do (no needless rebuild);
+   literal count and expression list are functions of the skeleton *)
+Theorem C16_has_changed_iff_skeleton : forall (o o' : gen_opts) (u u' : list uop),
+  has_changed skel_eqb (gen_out o u) (gen_out o' u') = false <->
+  o_version o = o_version o' /\ o_file o = o_file o' /\ o_skip o = o_skip o' /\ skeleton u = skeleton u'.
+Proof. exact has_changed_iff_skeleton. Qed.
+Print Assumptions C16_has_changed_iff_skeleton.
+
+(* THE RECOMPILE DECISION IS SOUND, without any guard on the shape of the template: whenever HasChanged answers
+   false for an edit u -> u' (the new literals are lines of the text file: C16_literals_are_quoted), then for every
+   writer semantics, valuation, meaning of the other statements, state, position and fuel the program compiled from
+   u reading the text file of u' renders exactly what the program compiled from u' renders.
+   (A render that fails is None on both sides: the Line/Col numbers carried by templ.Error VALUES stay those of the
+   compiled version after a text-only edit - they are not rendered bytes and not part of the property.) *)
+Theorem C16_recompile_decision_sound : forall (St : Type) (sem : sink -> bytes -> bytes) (ev_str : St -> bytes -> bytes)
+  (ev_bool : St -> bytes -> bool) (code : bytes -> nat -> St -> option (St * bytes * nat))
+  (o o' : gen_opts) (u u' : list uop),
+  lits_ok u' = true ->
+  has_changed skel_eqb (gen_out o u) (gen_out o' u') = false ->
+  forall (fuel pc : nat) (s : St),
+  exec St sem ev_str ev_bool code (lk_dev (text_file (lits u'))) fuel (compile u) pc s =
+  exec St sem ev_str ev_bool code lk_normal fuel (compile u') pc s.
+Proof. exact recompile_decision_sound. Qed.
+Print Assumptions C16_recompile_decision_sound.
+
+(* ... and for a whole session: if every edit of a chain is answered "text only" (each generation compared with the
+   previous one), the program compiled BEFORE THE FIRST edit reading the text file of the LAST version renders what a
+   fresh build of the last version renders *)
+Theorem C16_text_only_chain_sound : forall (St : Type) (sem : sink -> bytes -> bytes) (ev_str : St -> bytes -> bytes)
+  (ev_bool : St -> bytes -> bool) (code : bytes -> nat -> St -> option (St * bytes * nat))
+  (o : gen_opts) (u : list uop) (rest : list (gen_opts * list uop)),
+  text_only_chain o u rest = true -> lits_ok (snd (last rest (o, u))) = true ->
+  forall (fuel pc : nat) (s : St),
+  exec St sem ev_str ev_bool code (lk_dev (text_file (lits (snd (last rest (o, u)))))) fuel (compile u) pc s =
+  exec St sem ev_str ev_bool code lk_normal fuel (compile (snd (last rest (o, u)))) pc s.
+Proof. exact text_only_chain_sound. Qed.
+Print Assumptions C16_text_only_chain_sound.
+
+(* non-vacuity: a text-only edit (HasChanged = false) that does change what is rendered; the old program shows the
+   new text through the file *)
+Example C16_ex_text_only :
+  let u  := [ULit (bs "<p>"); UExpr SText (bs "s"); ULit (bs "</p>")] in
+  let u' := [ULit (bs "<b>\""x\"""); UExpr SText (bs "s"); ULit (bs "</b>")] in
+  let run := exec unit (fun _ v => v) (fun _ _ => bs "S") (fun _ _ => true) (fun _ _ _ => None) in
+  has_changed skel_eqb (gen_out o0 u) (gen_out o0 u') = false /\ lits_ok u' = true /\
+  run lk_normal 8%nat (compile u) 0%nat tt = Some (bs "<p>S</p>") /\
+  run (lk_dev (text_file (lits u'))) 8%nat (compile u) 0%nat tt = Some (bs "<b>""x""S</b>") /\
+  run lk_normal 8%nat (compile u') 0%nat tt = Some (bs "<b>""x""S</b>").
+Proof. repeat split; vm_compute; reflexivity. Qed.
+
+(* non-vacuity of the opaque statements: a loop (state = iteration count; "for" enters the body twice, then leaves;
+   the closing brace jumps back), text edited inside and after the body, an if inside the body *)
+Example C16_ex_loop :
+  let u  := [UCode (bs "for") [bs "xs"]; ULit (bs "<li>"); UIf (bs "b") 1; UExpr SText (bs "x"); UCode (bs "}") []; ULit (bs "end")] in
+  let u' := [UCode (bs "for") [bs "xs"]; ULit (bs "<dd>"); UIf (bs "b") 1; UExpr SText (bs "x"); UCode (bs "}") []; ULit (bs "END\n")] in
+  let code := fun (c : bytes) (pc : nat) (s : nat) =>
+                if bytes_eqb c (bs "for") then Some (s, [], if (s <? 2)%nat then S pc else (pc + 5)%nat)
+                else Some (S s, bs ";", (pc - 4)%nat) in
+  let run := exec nat (fun _ v => v) (fun s _ => [x30; x31; x32] ) (fun s _ => (s =? 0)%nat) code in
+  has_changed skel_eqb (gen_out o0 u) (gen_out o0 u') = false /\ lits_ok u' = true /\
+  exprs u = [bs "xs"; bs "b"; bs "x"] /\
+  run lk_normal 50%nat (compile u) 0%nat 0%nat = Some (bs "<li>012;<li>;end") /\
+  run (lk_dev (text_file (lits u'))) 50%nat (compile u) 0%nat 0%nat = Some (bs "<dd>012;<dd>;END" ++ [x0a]) /\
+  run lk_normal 50%nat (compile u') 0%nat 0%nat = Some (bs "<dd>012;<dd>;END" ++ [x0a]).
+Proof. repeat split; vm_compute; reflexivity. Qed.
+
+(* REGRESSION: the criterion of before 75525d5 (options, literal count, expression list) is NOT sound, and the
+   repaired HasChanged answers "recompile" on each witness.  For every writer semantics, meaning of other statements
+   and state:
    (a) if the attribute escaper and the style sanitiser differ on some value, title={ c } -> style={ c };
    (b) if some value is written non-empty in text position, moving { s } into the preceding if-body;
    (c) if some value is written non-empty in text position, swapping a literal and an expression
-   are answered "no recompilation" while the compiled old program reading the new text file renders other
-   bytes than the newly generated program. *)
-Theorem C16_has_changed_refuted : forall sem : sink -> bytes -> bytes,
+   pass the old criterion while the compiled old program reading the new text file renders other bytes than the
+   newly generated program (fuel 8 exceeds the number of statements: both runs complete). *)
+Theorem C16_expression_list_criterion_refuted : forall (St : Type) (sem : sink -> bytes -> bytes)
+  (code : bytes -> nat -> St -> option (St * bytes * nat)) (s : St),
   (forall x, sem SAttr x <> sem SStyle x ->
-     has_changed (gen_out o0 wa) (gen_out o0 wa') = false /\ lits_ok wa' = true /\
-     run sem (fun _ => x) (fun _ => true) (lk_dev (text_file (lits wa'))) (compile wa) 0 <>
-     run sem (fun _ => x) (fun _ => true) lk_normal (compile wa') 0) /\
+     expr_list_criterion (gen_out o0 wa) (gen_out o0 wa') = false /\
+     has_changed skel_eqb (gen_out o0 wa) (gen_out o0 wa') = true /\ lits_ok wa' = true /\
+     exec St sem (fun _ _ => x) (fun _ _ => true) code (lk_dev (text_file (lits wa'))) 8 (compile wa) 0 s <>
+     exec St sem (fun _ _ => x) (fun _ _ => true) code lk_normal 8 (compile wa') 0 s) /\
   (forall x, sem SText x <> [] ->
-     has_changed (gen_out o0 wb) (gen_out o0 wb') = false /\ lits_ok wb' = true /\
-     run sem (fun _ => x) (fun _ => false) (lk_dev (text_file (lits wb'))) (compile wb) 0 <>
-     run sem (fun _ => x) (fun _ => false) lk_normal (compile wb') 0) /\
+     expr_list_criterion (gen_out o0 wb) (gen_out o0 wb') = false /\
+     has_changed skel_eqb (gen_out o0 wb) (gen_out o0 wb') = true /\ lits_ok wb' = true /\
+     exec St sem (fun _ _ => x) (fun _ _ => false) code (lk_dev (text_file (lits wb'))) 8 (compile wb) 0 s <>
+     exec St sem (fun _ _ => x) (fun _ _ => false) code lk_normal 8 (compile wb') 0 s) /\
   (forall x c0 rest, sem SText x = c0 :: rest -> exists l : byte,
-     has_changed (gen_out o0 (wc l)) (gen_out o0 (wc' l)) = false /\ lits_ok (wc' l) = true /\
-     run sem (fun _ => x) (fun _ => true) (lk_dev (text_file (lits (wc' l)))) (compile (wc l)) 0 <>
-     run sem (fun _ => x) (fun _ => true) lk_normal (compile (wc' l)) 0).
-Proof. exact has_changed_refuted. Qed.
-Print Assumptions C16_has_changed_refuted.
+     expr_list_criterion (gen_out o0 (wc l)) (gen_out o0 (wc' l)) = false /\
+     has_changed skel_eqb (gen_out o0 (wc l)) (gen_out o0 (wc' l)) = true /\ lits_ok (wc' l) = true /\
+     exec St sem (fun _ _ => x) (fun _ _ => true) code (lk_dev (text_file (lits (wc' l)))) 8 (compile (wc l)) 0 s <>
+     exec St sem (fun _ _ => x) (fun _ _ => true) code lk_normal 8 (compile (wc' l)) 0 s).
+Proof. exact expr_list_criterion_refuted. Qed.
+Print Assumptions C16_expression_list_criterion_refuted.
 
-(* the hypotheses of the refutation are satisfiable: a toy semantics in which the style writer answers a fixed
+(* the hypotheses of the regression are satisfiable: a toy semantics in which the style writer answers a fixed
    string; the two renderings are computed *)
-Example C16_ex_refuted :
+Example C16_ex_regression :
   let sem := fun k v => match k with SStyle => bs "zTemplz" | _ => v end in
-  run sem (fun _ => bs "red") (fun _ => true) (lk_dev (text_file (lits wa'))) (compile wa) 0 = Some (bs "<p style=""red""></p>") /\
-  run sem (fun _ => bs "red") (fun _ => true) lk_normal (compile wa') 0 = Some (bs "<p style=""zTemplz""></p>") /\
-  run sem (fun _ => bs "S") (fun _ => false) (lk_dev (text_file (lits wb'))) (compile wb) 0 = Some (bs "S<hr>") /\
-  run sem (fun _ => bs "S") (fun _ => false) lk_normal (compile wb') 0 = Some (bs "<hr>").
+  let run := fun (x : bytes) (b : bool) => exec unit sem (fun _ _ => x) (fun _ _ => b) (fun _ _ _ => None) in
+  run (bs "red") true (lk_dev (text_file (lits wa'))) 8%nat (compile wa) 0%nat tt = Some (bs "<p style=""red""></p>") /\
+  run (bs "red") true lk_normal 8%nat (compile wa') 0%nat tt = Some (bs "<p style=""zTemplz""></p>") /\
+  run (bs "S") false (lk_dev (text_file (lits wb'))) 8%nat (compile wb) 0%nat tt = Some (bs "S<hr>") /\
+  run (bs "S") false lk_normal 8%nat (compile wb') 0%nat tt = Some (bs "<hr>").
 Proof. repeat split; vm_compute; reflexivity. Qed.
 
-(* The coded criterion IS sound on templates whose statements alternate literal, text expression, literal, ...
-   with no control flow (each expression between two literals, all in text position). *)
-Theorem C16_has_changed_partial : forall (sem : sink -> bytes -> bytes) (ev_str : bytes -> bytes) (ev_bool : bytes -> bool)
-  (o o' : gen_opts) (u u' : list uop),
-  alternating u = true -> alternating u' = true -> lits_ok u' = true ->
-  has_changed (gen_out o u) (gen_out o' u') = false ->
-  run sem ev_str ev_bool (lk_dev (text_file (lits u'))) (compile u) 0 = run sem ev_str ev_bool lk_normal (compile u') 0.
-Proof. exact has_changed_partial. Qed.
-Print Assumptions C16_has_changed_partial.
+(* ---------- the same decision on the generated FILES (text level) ----------
+   skel_of_code computes RangeWriter.Skeleton() from the generated text: the literal of every WriteString line, the
+   generated-date line and the Line/Col numbers of templ.Error lines are left out (compared with the real field byte
+   for byte on every generated file by the harness).  The file is read as a program of LINES: a WriteString line is
+   the call with the index written in it, every other line is an opaque statement with an arbitrary meaning (state
+   change, output, jump) - any semantics of the Go text in which WriteString does what the runtime does. *)
 
-Example C16_ex_partial :
-  alternating [ULit (bs "<p>"); UExpr SText (bs "s"); ULit (bs "</p>")] = true /\
-  has_changed (gen_out o0 [ULit (bs "<p>"); UExpr SText (bs "s"); ULit (bs "</p>")])
-              (gen_out o0 [ULit (bs "<b>\""x\"""); UExpr SText (bs "s"); ULit (bs "</b>")]) = false /\
-  lits_ok [ULit (bs "<b>\""x\"""); UExpr SText (bs "s"); ULit (bs "</b>")] = true.
-Proof. repeat split; vm_compute; reflexivity. Qed.
+(* ws_parse recognises exactly the WriteString lines  TABS prefix DIGITS, "LIT")  and the skeleton of such a line is
+   the line with an empty literal; the skeleton of any other line is the line without its error position, which is
+   never mistaken for a WriteString line *)
+Theorem C16_ws_line_recognised :
+  (forall l tb ds lit, ws_parse l = Some (tb, ds, lit) ->
+     l = ws_line tb ds lit /\ forallb is_tab tb = true /\ forallb is_digit ds = true /\ ds <> []) /\
+  (forall tb ds lit, forallb is_tab tb = true -> forallb is_digit ds = true -> ds <> [] ->
+     ws_parse (ws_line tb ds lit) = Some (tb, ds, lit) /\ skel_line (ws_line tb ds lit) = ws_line tb ds []) /\
+  (forall l, ws_parse l = None -> skel_line l = erase_pos l /\ ws_parse (erase_pos l) = None).
+Proof. exact ws_recognition. Qed.
+Print Assumptions C16_ws_line_recognised.
+
+(* Both files are generator outputs (they have a line; their WriteString calls are numbered 1, 2, ... in order:
+   C16_literal_indices for the generator model, checked on every real file) and the text file is written from the
+   literals that are in the new code.  If HasChanged - with the skeletons computed from the two texts - answers
+   false, then under every semantics of the other lines that does not look at the Line/Col numbers of templ.Error
+   values, the OLD file as a program, looking its strings up in the NEW text file, renders from every line, in every
+   state, with every fuel, what the NEW file as a program renders. *)
+Theorem C16_code_decision_sound : forall (St : Type) (sem : sink -> bytes -> bytes) (ev_str : St -> bytes -> bytes)
+  (ev_bool : St -> bytes -> bool) (code : bytes -> nat -> St -> option (St * bytes * nat)),
+  (forall l pc s, code l pc s = code (erase_pos l) pc s) ->
+  forall (o o' : gen_opts) (ls es ls' es' : list bytes) (c c' : bytes),
+  wf_code c = true -> wf_code c' = true -> ls' = op_lits (ops_of_code c') ->
+  has_changed bytes_eqb (gen_out_code o ls es c) (gen_out_code o' ls' es' c') = false ->
+  forall (fuel pc : nat) (s : St),
+  exec St sem ev_str ev_bool code (lk_dev (text_file ls')) fuel (ops_of_code c) pc s =
+  exec St sem ev_str ev_bool code lk_normal fuel (ops_of_code c') pc s.
+Proof. exact code_decision_sound. Qed.
+Print Assumptions C16_code_decision_sound.
 
 (* ---------- the literals of the WHOLE generator model (model/Gen.v: generate = generator.Generate, tied to the
    real generator byte for byte by the C02/C07 harness) ---------- *)
@@ -232,3 +340,24 @@ Example C16_ex_generated_literals :
   snd (Gen.generate (bs "t.templ") lit_file) = [bs "<a title=\""x\\&#34;y\"" href=\"""; bs "\"">a\""b\n"; bs "</a>"] /\
   Gen.index (Gen.w (gen_state (bs "t.templ") lit_file)) = 3%nat.
 Proof. split; [exact lit_file_named|split; vm_compute; reflexivity]. Qed.
+
+(* ---------- the repaired decision on the generator model's own output (proofs/WatchGenProof.v) ----------
+   lit_file, the same file after a text-only edit (constant attribute, text and the positions of both expressions
+   change) and after moving the expression u from href (URL writer) to title (attribute writer). *)
+From V Require Import proofs.WatchGenProof.
+Example C16_ex_generator_skeleton :
+  let c  := fst (Gen.generate (bs "t.templ") lit_file) in
+  let c' := fst (Gen.generate (bs "t.templ") lit_file_text) in
+  let es := [bs "u"; bs "s"] in
+  (* both are well-formed programs of lines whose literals are the generator's literal list *)
+  wf_code c = true /\ wf_code c' = true /\ op_lits (ops_of_code c') = snd (Gen.generate (bs "t.templ") lit_file_text) /\
+  (* the text-only edit changes the code (literals, Line, Col) but not the skeleton: no recompilation *)
+  bytes_eqb c c' = false /\ has_changed bytes_eqb (gen_output_of ot es lit_file) (gen_output_of ot es lit_file_text) = false /\
+  (* the moved expression passes the old criterion and is caught by the skeleton *)
+  expr_list_criterion (gen_output_of ot es lit_file) (gen_output_of ot es lit_file_sink) = false /\
+  has_changed bytes_eqb (gen_output_of ot es lit_file) (gen_output_of ot es lit_file_sink) = true /\
+  (* the old file run as a program of lines (every other line a no-op) on the new text file shows the new text *)
+  exec unit (fun _ v => v) (fun _ _ => []) (fun _ _ => true) (fun _ pc _ => Some (tt, [], S pc))
+       (lk_dev (text_file (snd (Gen.generate (bs "t.templ") lit_file_text)))) 100%nat (ops_of_code c) 0%nat tt =
+  Some (bs "<a title=""other \ title"" href="""">c" ++ [x0a] ++ bs "d</a>").
+Proof. repeat split; vm_compute; reflexivity. Qed.
